@@ -1,6 +1,6 @@
 // enginex: explicit-state search over the real BuildEngine (DESIGN.md §4.2).
 //
-//   enginex --prop C01|C02|C03|C05|C06|C07 --tier quick|thorough --shard i --nshards n --out FILE
+//   enginex --prop C01|C02|C03|C04|C05|C06|C07|C20 --tier quick|thorough --shard i --nshards n --out FILE
 //           [--replay-spec "<mode>|<world spec>|<history>"]
 //
 // A state is the event history that reaches it, replayed on a fresh engine;
@@ -74,6 +74,8 @@ static const char* kCurated[] = {
     "a: x !y@0=1; b: a",
     "a: x; b: a !y; c: b y",
     "a: x !y %collapse; b: a",
+    // two discovered dependencies: the later one can be complete while the earlier one is still being brought up to date
+    "a: x !z !y; b: a",
     // the same key requested (order-only / single-use) and reported as discovered: only the discovered entry invalidates
     "a: y/M x !y; b: a",
     "a: y/S x !y; b: a",
@@ -362,7 +364,7 @@ struct Explorer {
                   RunOut o = run(hc);
                   res.count("db_read_error_points");
                   visit(hc, o, node.cancels + 1);
-                  if (args.prop == "C05" && !o.dead && (args.thorough() || curatedIndex(w.spec) < 16))
+                  if (args.prop == "C05" && !o.dead && (args.thorough() || curatedIndex(w.spec) < 17))
                     for (int k = 1; k <= o.last.steps; ++k) {
                       History hd = hc;
                       hd.back().cancelAt = k;
@@ -391,7 +393,7 @@ struct Explorer {
   // back one leaf of S (or all of S), rebuild K. The last build is judged: an interrupted build must not leave behind
   // a record that a later build takes to be up to date although its task saw the state before the reversal.
   // plainOnly: no interruption at all (C07: a build that ends in a REAL cycle is the interruption)
-  void abaPass(bool plainOnly = false) {
+  void abaPass(bool plainOnly = false, bool restartOnly = false) {
     std::string leaves = w.leaves;
     size_t n = leaves.size();
     if (n == 0 || n > 4) return;
@@ -412,7 +414,7 @@ struct Explorer {
           History hi = h;
           if (k == 0) {}
           else if (k <= base.last.steps) hi.back().cancelAt = k; else hi.back().failWriteAt = k - base.last.steps;
-          for (int restart = 0; restart <= (cfg.useDB ? 1 : 0); ++restart)
+          for (int restart = restartOnly ? 1 : 0; restart <= (cfg.useDB ? 1 : 0); ++restart)
             for (unsigned back : backs) {
               History hh = hi;
               if (restart) { Event r; r.kind = 'r'; hh.push_back(r); }
@@ -624,6 +626,11 @@ static void exploreWorld(const std::string& spec, const std::string& modeName, v
       bool withCancel = m.keyset == 0 && idx >= 0 && (T || idx < 10);
       ex.bfs(m.keyset ? (T ? 4 : 3) : (T ? 5 : 4), 0, withCancel ? 1 : 0, true);
     }
+  } else if (p == "C04") {
+    // graceful interruption followed by the death of the process: build K, change leaves, rebuild K interrupted at
+    // EVERY step / failed write, new process on that database, any of the leaves put back, rebuild K
+    ex.cfg.checkC02 = false; ex.cfg.checkProto = false; ex.cfg.checkC07 = false;
+    ex.abaPass(false, /*restartOnly=*/true);
   } else if (p == "C05") {
     ex.cfg.checkC02 = false; ex.cfg.checkProto = false; ex.cfg.checkC07 = false;
     ex.bfs(T ? 5 : 4, T ? 1 : 0, 1, false);
@@ -982,6 +989,8 @@ int main(int argc, char** argv) {
     for (auto& wd : worlds) { work.push_back({wd, "mem"}); work.push_back({wd, "db"}); if (T) work.push_back({wd, "db+force"}); }
   } else if (p == "C06") {
     for (auto& wd : worlds) { work.push_back({wd, "mem"}); work.push_back({wd, "db"}); }
+  } else if (p == "C04") {
+    for (auto& wd : worlds) work.push_back({wd, "db"});
   } else if (p == "C20") {
     // the sub-family expressible through core.h: no single-use requests, no signatures / redefinition
     for (auto& wd : worlds) {
